@@ -137,9 +137,10 @@ Definition no_bounds := mkbounds None None None None None None None.
 Inductive hook :=
 | HRecord (id : nat)                          (* returns params unchanged *)
 | HSet (id : nat) (k : string) (v : xnum)     (* params.update(k=v) *)
-| HExtrude (id : nat) (area cross : Q).       (* bundled extrusion hook: area = nozzle*layer *)
+| HExtrude (id : nat) (area cross : Q)        (* bundled extrusion hook: area = nozzle*layer *)
+| HDrop (id : nat) (k : string).             (* returns a NEW mapping without k: the word is neither emitted nor remembered *)
 Definition hook_id (h : hook) : nat :=
-  match h with HRecord i | HSet i _ _ | HExtrude i _ _ => i end.
+  match h with HRecord i | HSet i _ _ | HExtrude i _ _ | HDrop i _ => i end.
 
 Record st := mkst {
   pos : point;            (* GCodeCore._current_axes *)
@@ -309,6 +310,13 @@ Definition transform_move (s : st) (p : point) : point * point :=
         (comb1 (pz p) (pz o) (pz t) (pz mv)), target).
 
 (* hooks *)
+(* {k': v for k', v in params.items() if k' != k} *)
+Fixpoint premove (k : string) (ps : params) : params :=
+  match ps with
+  | [] => []
+  | (k', v) :: ps' => if String.eqb k k' then premove k ps' else (k', v) :: premove k ps'
+  end.
+
 Definition run_hook (s : st) (h : hook) (origin target : point) (ps : params) (esq : Q -> Q) : params :=
   match h with
   | HRecord _ => ps
@@ -324,6 +332,7 @@ Definition run_hook (s : st) (h : hook) (origin target : point) (ps : params) (e
                                 | None => fl end
                  | ERelative => fl end in
       pset "E" (Fin fl') ps
+  | HDrop _ k => premove k ps
   end.
 
 (* square root to 2^-60, the model of math.hypot's value *)
